@@ -50,8 +50,8 @@ def _same(a, b):
     return _valid(land(a.re == b.re, a.im == b.im))
 
 
-def _reorder_unit(perms, tag, tiers):
-    @unit("C05", "System_R.reorder + Rvectors.reorder: matrices, centres, both shift sets and caches [%s]" % tag,
+def _reorder_unit(perms, tag, tiers, prop="C05"):
+    @unit(prop, "System_R.reorder + Rvectors.reorder: matrices, centres, both shift sets and caches [%s]" % tag,
           scope="shape:3 Wannier functions, permutations %s; 5 R-vectors; Ham, vector-valued AA and three more matrices" % (perms,), expect_min=5, tiers=tiers)
     def _reorder(U):
         return _reorder_body(U, perms)
